@@ -22,7 +22,10 @@ RULE = ('valid Unix names (non-empty, no "/" or NUL, not "." / "..") from a Unic
 ASSUMPTIONS = ['the legality predicate implements the rules the library documents (d-characters, 8.3 at level 1, 30/31 at levels 2-3, version 1..32767)']
 REQUIRED_COUNTERS = {'strings_checked': 1000, 'library_acceptance_checked': 100, 'facade_roundtrips': 10}
 
-SPECIAL = ['ß', 'ŉ', 'ǰ', 'ΐ', 'ΰ', 'ﬁ', 'ﬂ', 'ﬃ', 'ﬆ', 'ẞ', 'İ', 'ı', 'ǅ', 'ᾳ', 'և']
+# characters whose case mapping changes their length or class, and characters that Unicode-aware
+# string predicates take for digits / letters although they are not d-characters
+SPECIAL = ['ß', 'ŉ', 'ǰ', 'ΐ', 'ΰ', 'ﬁ', 'ﬂ', 'ﬃ', 'ﬆ', 'ẞ', 'İ', 'ı', 'ǅ', 'ᾳ', 'և',
+           '\u0663', '\uff12', '\u096b', '\u0e53', '\u00b2', '\u2167', '\uff3a', '\uff5a', '\u00aa', '\u2460', '\U0001d7d8']
 POOLS = ['abcdefghijklmnopqrstuvwxyz', 'ABCDEFGHIJKLMNOPQRSTUVWXYZ0123456789_', '.-+ ~!@#$%^&()[]{};,=', 'àéîõüçñøå', 'αβγδε', 'абвгд',
          '日本語', '\U0001F600\U00010348', '\x01\x07\x1f\x7f']
 DCH = set('ABCDEFGHIJKLMNOPQRSTUVWXYZ0123456789_')
